@@ -8,7 +8,7 @@ W=$(mktemp -d /tmp/hlw.XXXXXX)
 L=$(mktemp -d /tmp/hll.XXXXXX)
 trap 'git -C /repo worktree remove --force "$W/r" 2>/dev/null; rm -rf "$W" "$L"' EXIT
 cp -r $V/lean/. "$L"/
-patches=("$@"); [ ${#patches[@]} -eq 0 ] && patches=($V/seeded/harmless/H*.diff)
+patches=(); for a in "$@"; do patches+=("$(readlink -f "$a")"); done; [ ${#patches[@]} -eq 0 ] && patches=($V/seeded/harmless/H*.diff)
 for p in "${patches[@]}"; do
   git -C /repo worktree add -q --detach "$W/r" HEAD
   if ! git -C "$W/r" apply "$p"; then echo "$(basename $p): PATCH-DOES-NOT-APPLY"; git -C /repo worktree remove --force "$W/r"; continue; fi
